@@ -455,6 +455,21 @@ def main():
         except Exception:
             pass
         sys.exit(1)
+    except vbuild.TieBroken as e:
+        # the tree changed in a way the harness cannot follow: the property is no longer shown to hold (no failing input known)
+        os.makedirs(REPLAYS, exist_ok=True)
+        path = os.path.join(REPLAYS, f'{a.pid}-tie-{ctx.seed}.txt')
+        with open(path, 'w') as fh:
+            fh.write(f'# property {a.pid}: the correspondence check cannot be run against this tree\n# concrete-failing-input: no\n'
+                     f'# broken obligation: correspondence C++ <-> model (the C++ side does not build)\n' + str(e) + '\n')
+        print(f'VIOLATION property={a.pid} replay={path} no-failing-input-found')
+        try:
+            ctx.cov['rule'] = 'the harness does not build against the tree under test; nothing could be explored'
+            ctx.violations = [{'what': 'harness does not build against this tree', 'replay': path, 'concrete': False}]
+            finish(ctx, 'proof', [], 'correspondence broken: harness does not build', 'python3 tools/vcheck.py ' + a.pid)
+        except Exception:
+            pass
+        sys.exit(1)
     except Exception as e:
         traceback.print_exc()
         # an infrastructure failure is not evidence of anything: fail loudly without a VIOLATION line
